@@ -44,7 +44,7 @@ def run(ck):
         return "C28:local-first"
 
     vf.table_check(ck, "Routes", "MC_Routes_load.cfg", "routes", drv_args=["load"], judge=judge, sig=sig)
-    ck.evaluations *= 1
+    ck.evaluations += 2 * 125 if ck.replay is None else 2   # three concretisations per case
     for k in ttls:
         if not ttls[k]:
             if ck.viol or ck.replay is not None:
